@@ -151,11 +151,11 @@ theorem setDefaultsList_never_panics (tbl : List (List String × String)) : ∀ 
     | panic s => exact absurd hv (h1 s)
 end
 
-/-! ## `transform.Canonical` (Model/ShortTransform.lean): the only panic site is `transformKeyValue` on a list with a
-non-string item — and only there -/
+/-! ## `transform.Canonical` (Model/ShortTransform.lean): no panic outcome on any tree (until round 5 the model — and the
+code — had one site: `transformKeyValue`'s `e.(string)` on a list with a non-string item; repaired, see findings/C01.txt) -/
 
-/-- "a panic, if any, is the `e.(string)` of `transformKeyValue`" -/
-def OnlyKV {α : Type} (o : Short.Out α) : Prop := ∀ s, o = .panic s → s = "transform.transformKeyValue"
+/-- "no panic" (the name is historical: it used to say "a panic, if any, is the `e.(string)` of `transformKeyValue`") -/
+def OnlyKV {α : Type} (o : Short.Out α) : Prop := ∀ s, o = .panic s → False
 
 theorem onlyKV_ok {α : Type} (a : α) : OnlyKV (Short.Out.ok a) := by intro s h; cases h
 theorem onlyKV_err {α : Type} (e : String) : OnlyKV (Short.Out.err e : Short.Out α) := by intro s h; cases h
@@ -241,19 +241,19 @@ theorem sshList_np : ∀ (l : List Val) (acc : Val.KVs) (s : String), Short.sshL
   | .map _ :: r, acc, s => by simp [Short.sshList]
 
 theorem kvList_onlyKV (ign : Bool) : ∀ (l : List Val) (acc : Val.KVs) (s : String),
-    Short.kvList ign l acc = some (.panic s) → s = "transform.transformKeyValue"
+    Short.kvList ign l acc = some (.panic s) → False
   | [], acc, s, h => by simp [Short.kvList] at h
   | .str t :: r, acc, s, h => by
     unfold Short.kvList at h
     split at h
     · split at h <;> simp at h
     · exact kvList_onlyKV ign r _ s h
-  | .null :: r, acc, s, h => by simp [Short.kvList] at h; exact h.symm
-  | .bool _ :: r, acc, s, h => by simp [Short.kvList] at h; exact h.symm
-  | .int _ :: r, acc, s, h => by simp [Short.kvList] at h; exact h.symm
-  | .float _ :: r, acc, s, h => by simp [Short.kvList] at h; exact h.symm
-  | .seq _ :: r, acc, s, h => by simp [Short.kvList] at h; exact h.symm
-  | .map _ :: r, acc, s, h => by simp [Short.kvList] at h; exact h.symm
+  | .null :: r, acc, s, h => by simp [Short.kvList] at h
+  | .bool _ :: r, acc, s, h => by simp [Short.kvList] at h
+  | .int _ :: r, acc, s, h => by simp [Short.kvList] at h
+  | .float _ :: r, acc, s, h => by simp [Short.kvList] at h
+  | .seq _ :: r, acc, s, h => by simp [Short.kvList] at h
+  | .map _ :: r, acc, s, h => by simp [Short.kvList] at h
 
 theorem transformKeyValue_onlyKV (ign : Bool) (v : Val) : OnlyKV (Short.transformKeyValue ign v) := by
   intro s h
